@@ -536,6 +536,7 @@ func c16WriteBits(c *Ctx) {
 }
 
 var c16Canaries = []Canary{
+	{Name: "r6-unlock-id-skips-server", ExpectKey: "C16.R2#unlock-id:server-asked-when-cache-is-empty", Edits: []Edit{{File: "commands/command_unlock.go", Find: "\t// Get the path so we can check the status\n\tfilter := map[string]string{\"id\": id}\n\t// try local cache first\n\tlocks, _ := lockClient.SearchLocks(filter, 0, true, false)\n\tif len(locks) == 0 {\n\t\t// Fall back on calling server\n\t\tlocks, _ = lockClient.SearchLocks(filter, 0, false, false)\n\t}\n", Repl: "\t// Get the path so we can check the status\n\tfilter := map[string]string{\"id\": id}\n\t// try local cache first\n\tlocks, err := lockClient.SearchLocks(filter, 0, true, false)\n\tif err != nil {\n\t\t// Fall back on calling server\n\t\tlocks, _ = lockClient.SearchLocks(filter, 0, false, false)\n\t}\n"}}},
 	{Name: "r5-locks-fetched-per-ref", ExpectKey: "C16.R1#locks-of-all-refs", Edits: []Edit{{File: "commands/uploader.go", Find: "\tverifyLocksForUpdates(ctx.lockVerifier, updates)\n", Repl: ""}}},
 	{Name: "r4-lock-path-from-cwd", ExpectKey: "C16.R2#lock-path", Edits: []Edit{{File: "locking/locks.go", Find: "return filepath.Join(c.LocalWorkingDir, p), nil", Repl: "return filepath.Abs(p)"}}},
 	{Name: "can-upload-always", ExpectKey: "C16.R1#locked-by-them-not-uploaded", Edits: []Edit{{File: "commands/uploader.go", Find: "			canUpload = !c.lockVerifier.Enabled()", Repl: "			canUpload = !c.lockVerifier.Enabled() || p.Size > 0"}}},
